@@ -153,8 +153,8 @@ def timeout_ticks(case):
     return int(case.get('timeout', 10)) * TICK
 
 
-def get_flags(max_send=3, threaded=False, tticks=10 * 1024, web=False, static_dir=None, tls=False):
-    key = (max_send, threaded, tticks, web, static_dir, tls)
+def get_flags(max_send=3, threaded=False, tticks=10 * 1024, web=False, static_dir=None, tls=False, srb=None, crb=None):
+    key = (max_send, threaded, tticks, web, static_dir, tls, srb, crb)
     if key not in _FLAGS:
         args = ['--max-sendbuf-size', str(max_send)]
         if threaded:
@@ -163,6 +163,10 @@ def get_flags(max_send=3, threaded=False, tticks=10 * 1024, web=False, static_di
             args += ['--enable-web-server', '--plugins', 'proxy.plugin.WebServerPlugin']
         if static_dir:
             args += ['--enable-static-server', '--static-server-dir', static_dir]
+        if srb:
+            args += ['--server-recvbuf-size', str(srb)]      # small recv buffers: pieces that fill the buffer exactly are cheap
+        if crb:
+            args += ['--client-recvbuf-size', str(crb)]
         if tls:
             # the proxy terminates TLS itself: initialize() wraps the accepted socket and REPLACES self.work
             # (wrap_socket is patched by RelayDriver to hand back the fake socket)
@@ -303,7 +307,8 @@ class RelayDriver:
         self.threaded = bool(case.get('threaded'))
         tls = bool(case.get('tls')) and handler == 'http'
         flags = get_flags(case.get('max_send', 3), self.threaded, timeout_ticks(case), bool(case.get('web')),
-                          case.get('static_dir'), tls)
+                          case.get('static_dir'), tls, case.get('srb'), case.get('crb'))
+        self.srb, self.crb = case.get('srb'), case.get('crb')
         self.t0 = case.get('t0', T0)
         self.clock = sim.VClock(self.t0 / TICK)
         klass = tunnel_handler_klass() if handler == 'tunnel' else None
@@ -425,11 +430,17 @@ class RelayDriver:
         ev = dict(ev0)
         ev['r'] = list(ev0.get('r', ()))
         took_c = took_u = False
+        def take(plan, limit):
+            x = plan.pop(0)
+            if limit and isinstance(x, (bytes, bytearray)) and len(x) > limit:
+                plan.insert(0, x[limit:])          # one recv() returns at most the recv buffer size
+                x = x[:limit]
+            return x
         if ev0.get('cr') and 'c_recv' not in ev0 and self.client_plan:
-            ev['c_recv'] = self.client_plan.pop(0); took_c = True
+            ev['c_recv'] = take(self.client_plan, self.crb); took_c = True
             ev['r'].append('client')
         if ev0.get('ur') and 'u_recv' not in ev0 and self.up_plan and S.upstreams:
-            ev['u_recv'] = self.up_plan.pop(0); took_u = True
+            ev['u_recv'] = take(self.up_plan, self.srb); took_u = True
             ev['r'].append('up0')
         self.executed.append(ev)
         self.clock.t = ev['now'] / TICK
@@ -443,6 +454,7 @@ class RelayDriver:
             up.send_script[:] = [py_outcome(ev['u_send'])] if ev.get('u_send') is not None else []
         self._cur = (ev, names, up, took_c, took_u)
         self._cio0 = self.cio_calls
+        self._log0 = {s_.name: len(s_.log) for s_ in [S.client] + S.upstreams}
         return ev.get('r', ()), ev.get('w', ())
 
     def post_step(self, res):
@@ -536,6 +548,8 @@ class RelayDriver:
                                inactive=inactive, uprcvd_len=len(self.uprcvd), clrcvd_len=len(self.clrcvd),
                                c_taken=c_taken, u_taken=u_taken, now=ev['now'], probe=probe,
                                cio=self.cio_calls > self._cio0,
+                               blocked=[s_.name for s_ in [S.client] + S.upstreams
+                                        if any(l[0] == 'blocked_recv' for l in s_.log[self._log0.get(s_.name, 0):])],
                                established=bool(S.upstreams)))
         self.final_res = res
         return res
@@ -730,6 +744,12 @@ def gen_relay(rng, profile='relay', n_events=None, max_send=None, handler=None):
     # configuration dimensions: the proxy terminates TLS itself (initialize() then replaces self.work), and boundary
     # values of the idle timeout: 0 ("for all timeout values"), one tick, fractions of a second
     case['tls'] = handler == 'http' and rng.random() < (0.3 if profile == 'timed' else 0.12)
+    # small recv buffers (so that pieces filling the buffer EXACTLY, and one byte less / more, are cheap):
+    # in most tunnel-handler cases (its upstream socket stays in timeout mode) and in part of the others
+    if profile != 'timed' and rng.random() < (0.75 if handler == 'tunnel' else 0.3):
+        case['srb'] = rng.choice([7, 16])
+        if rng.random() < 0.4:
+            case['crb'] = rng.choice([16, 64])
     if profile == 'timed' and rng.random() < 0.25:
         case['timeout_ticks'] = rng.choice([0, 0, 1, 3, 512])
     r = rng.random()
@@ -805,6 +825,15 @@ def gen_relay(rng, profile='relay', n_events=None, max_send=None, handler=None):
             tail = [x for x in client_plan[len(cut_first):] if not isinstance(x, (bytes, bytearray))]
             client_plan = merged + tail
             case['unaligned'] = True
+    if case.get('srb') and exchange in ('connect', 'http'):
+        # upstream pieces of exactly the recv buffer size (the upstream then pauses: nothing else is queued in that
+        # step), one byte less, one byte more (split by recv into a full buffer and one byte), two buffers
+        b = case['srb']
+        if exchange == 'connect':
+            up_plan = [rand_bytes(rng, rng.choice([b, b, b - 1, b + 1, 2 * b, 1])) for _ in range(max(2, n_up))]
+        else:
+            data = b''.join(x for x in up_plan if isinstance(x, (bytes, bytearray)))
+            up_plan = [data[i:i + b] for i in range(0, len(data), b)]
     # how the exchange ends
     end = rng.random()
     if profile == 'teardown':
